@@ -36,6 +36,18 @@ META = {
  'C18-b': ('C18', 'unsafe_ex parses without validate_props_and_rename_vars: user-given names of equal length alias', 'two same-length variable names in scope at once', ['C18']),
  'C20-a': ('C20', 'fixed-point loops of eval_eg / eval_au compare approx_cardinality', 'more than 53 symbolic variables and a tail of the iteration changing few pairs', []),
  'C20-b': ('C20', 'forall negation relative to the restricted universe', 'V{x} in %d% with a domain that is empty for some colours only', ['C20', 'C02']),
+ 'C01-c': ('C01', 'steady states computed only if a self-loop-sensitive operator is exposed (not below EF/AG/EU)', 'self-loop-sensitive operator only below a saturation operator, network with a steady state', ['C01'], '/tmp/seed-out2/C01/a'),
+ 'C01-d': ('C01', 'cache hit writes the un-renamed set back under the new renaming', 'one-variable sub-formula occurring three times with names n0, n1 != n0, n2 != n0', ['C04'], '/tmp/seed-out2/C01/b'),
+ 'C02-c': ('C02', 'restricted-unit-empty case delegated to eval_hybrid_quantifier(graph, graph, ..): forall over an empty range becomes false', 'nested domains non-empty for disjoint colours, inner forall', ['C02'], '/tmp/seed-out2/C02/a'),
+ 'C02-d': ('C02', 'memo of compute_valid_domain_for_var keyed by (label, variable) only', 'same label and variable name used twice under different enclosing restricted scopes', ['C02'], '/tmp/seed-out2/C02/b'),
+ 'C04-c': ('C04', 'cache bookkeeping moved to a helper that evicts wild-card sets again', 'duplicate containing a wild-card with one occurrence in a foreign restricted scope', ['C04'], '/tmp/seed-out2/C04/a'),
+ 'C04-d': ('C04', 'jump handled by the generic hybrid arm: free_var_domains of its variable is overwritten and removed', 'jump inside a restricted quantifier of the same variable, duplicate below / after it', ['C04'], '/tmp/seed-out2/C04/b'),
+ 'C05-c': ('C05', 'E/A operator look-ahead uses is_alphanumeric (underscore lost)', 'identifier starting with EX/AG/.. followed by an underscore', ['C05'], '/tmp/seed-out2/C05/a'),
+ 'C05-d': ('C05', 'left operand of & parsed with parse_8_unary', 'unparenthesised binary temporal operator in the left operand of &', ['C05'], '/tmp/seed-out2/C05/b'),
+ 'C09-c': ('C09', 'quantifier arm increments the counter only for names new to the map', 'sibling quantifiers followed by a later new variable', ['C09'], '/tmp/seed-out2/C09/a'),
+ 'C09-d': ('C09', 'Display of BinaryOp::AW prints EW', 'both weak-until operators on renaming-equal operands', ['C06', 'C09', 'C13'], '/tmp/seed-out2/C09/b'),
+ 'C14-c': ('C14', '\\forall passes literal true as the domains-allowed flag', 'plain entry point, long spelling \\forall with a domain', ['C05', 'C14'], '/tmp/seed-out2/C14/a'),
+ 'C14-d': ('C14', 'check_hctl_var_support compares with the total number of extra BDD variables', 'network with >= 2 variables and k < depth <= n*k', ['C14'], '/tmp/seed-out2/C14/b'),
  'C19-a': ('C19', 'argument order lost through collect_arguments (ported)', 'same symbol applied with swapped or compound arguments', ['C19']),
  'C19-b': ('C19', 'zero-arity parameters kept as they are; synthetic constants collide with them (ported)', 'user parameter named like a synthetic constant', ['C19']),
 }
@@ -45,11 +57,14 @@ NOTE = {'C20-a': 'NOT detected: same mechanism as C11-a (f64 cardinality), needs
 log = open('/tmp/verify_all.log').read() if os.path.exists('/tmp/verify_all.log') else ''
 log += open('/tmp/verify_b3.log').read() if os.path.exists('/tmp/verify_b3.log') else ''
 log += open('/tmp/verify_b4.log').read() if os.path.exists('/tmp/verify_b4.log') else ''
-for sid, (prop, what, needs, caught) in META.items():
+log += open('/tmp/verify_r2.log').read() if os.path.exists('/tmp/verify_r2.log') else ''
+for sid, entry in META.items():
+    prop, what, needs, caught = entry[:4]
     p, v = sid.split('-')
-    src = f'/tmp/seed-out/{p}/{v}'
+    src = entry[4] if len(entry) > 4 else f'/tmp/seed-out/{p}/{v}'
+    tag = ('R2 ' + '/'.join(src.split('/')[-2:])) if len(entry) > 4 else p + '/' + v
     if not os.path.isdir(src): print('missing', sid); continue
-    m = re.search(r'#### ' + p + '/' + v + r'\n(.*?)RESULT ([^\n]*)', log, re.S)
+    m = re.search(r'#### ' + re.escape(tag) + r'\n(.*?)RESULT ([^\n]*)', log, re.S)
     if not m or 'suite-ok demo-fails-with-change demo-passes-without-change' not in m.group(2): print('not verified yet:', sid); continue
     dst = f'/verif/seeded/{sid}'; os.makedirs(dst, exist_ok=True)
     ported = os.path.exists(src + '/patch_ported.diff')
